@@ -2,10 +2,13 @@ import RimeModel.Basic.Hex
 import RimeModel.C08.Model
 /-! line protocol for C08 (the same op lines `harness/c08_harness.cc` echoes):
 
-* `P <alphabet-hex>`                              start a new prism                       → `ok`
+* `P <loaded 0|1>`                                start a new prism; `1` = the object the syllabifier uses was
+                                                  `Load`ed from the saved file, `0` = it only ran `Build`  → `ok`
 * `K <key-hex> <syl>:<type>:<cred16>,…|-`         next spelling (id = number of `K` lines so far) with what
                                                   its `SpellingAccessor` enumerates; `cred16` = the 64-bit
                                                   pattern of the double, 16 hex digits     → `ok`
+* `A`                                             the alphabet `Prism::Build` stored in the metadata for the rows
+                                                  given so far                              → `<alphabet-hex>`
 * `Q <delims-hex> <completion 0|1> <strict 0|1> <input-hex>`   run `BuildSyllableGraph` → one graph line
 
 graph line: `ret=<r> il=<interpreted> in=<input_length> V=<pos>:<type>,… E=<items> I=<items>` with
@@ -67,15 +70,16 @@ def readBool (s : String) : Option Bool :=
   if s == "0" then some false else if s == "1" then some true else none
 
 structure DState where
-  alphabet : Bytes := []
+  loaded : Bool := false
   prism : Prism := []
 
 def step (st : DState) (line : String) : DState × String :=
   match line.trimAscii.toString.splitOn " " with
-  | ["P", al] =>
-    match Hex.decode al with
-    | some al => ({ alphabet := al, prism := [] }, "ok")
+  | ["P", ld] =>
+    match readBool ld with
+    | some ld => ({ loaded := ld, prism := [] }, "ok")
     | none => (st, "bad-op")
+  | ["A"] => (st, Hex.encode (buildAlphabet st.prism))
   | ["K", k, ds] =>
     match Hex.decode k, readDescs ds with
     | some k, some ds => ({ st with prism := st.prism ++ [(k, ds)] }, "ok")
@@ -83,7 +87,7 @@ def step (st : DState) (line : String) : DState × String :=
   | ["Q", dl, c, s, inp] =>
     match Hex.decode dl, readBool c, readBool s, Hex.decode inp with
     | some dl, some c, some s, some inp =>
-      (st, showGraph (build { delims := dl, completion := c, strict := s, alphabet := st.alphabet } st.prism inp))
+      (st, showGraph (build { delims := dl, completion := c, strict := s, alphabet := searchAlphabet st.loaded st.prism } st.prism inp))
     | _, _, _, _ => (st, "bad-op")
   | _ => (st, "bad-op")
 
